@@ -491,6 +491,7 @@ type GhostStmt struct {
 
 type GhostField struct {
 	Pkg, Recv, Name, Type string
+	Witness               bool // output of a ghost search (exempt from frame obligations; unknown after every call)
 }
 
 type PureFunc struct {
@@ -563,7 +564,7 @@ func splitTags(head string) (kind string, tags []string, label string) {
 		kind = head[:i]
 		inner := head[i+1 : len(head)-1]
 		for _, t := range strings.FieldsFunc(inner, func(r rune) bool { return r == ',' || r == ' ' }) {
-			if (strings.HasPrefix(t, "C") && len(t) >= 3 && unicode.IsDigit(rune(t[1]))) || t == "T" || t == "A" {
+			if (strings.HasPrefix(t, "C") && len(t) >= 3 && unicode.IsDigit(rune(t[1]))) || t == "T" || t == "A" || t == "INV" {
 				// T = thorough tier only (obligations that need more solver time than the quick budget allows)
 				tags = append(tags, t)
 			} else {
@@ -813,8 +814,8 @@ func ParseSpecFile(path, pkg string) (*SpecFile, error) {
 				sf.Globals = append(sf.Globals, &GhostField{Pkg: sf.Pkg, Name: f[1], Type: strings.Join(f[2:], "")})
 				continue
 			}
-			if len(f) >= 4 && f[0] == "field" {
-				sf.Ghosts = append(sf.Ghosts, &GhostField{Pkg: sf.Pkg, Recv: f[1], Name: f[2], Type: strings.Join(f[3:], "")})
+			if len(f) >= 4 && (f[0] == "field" || f[0] == "witness") {
+				sf.Ghosts = append(sf.Ghosts, &GhostField{Pkg: sf.Pkg, Recv: f[1], Name: f[2], Type: strings.Join(f[3:], ""), Witness: f[0] == "witness"})
 				continue
 			}
 			// ghost statement inside a func contract:  ghost entry: a = b | ghost after call X#k: a = b
@@ -950,6 +951,9 @@ func ParseSpecFile(path, pkg string) (*SpecFile, error) {
 				}
 				curL.Clauses = append(curL.Clauses, c)
 			} else {
+				if kind == "requires" && hasTag(c.Tags, "INV") {
+					sf.Assumes = append(sf.Assumes, "object invariant assumed at method entry (established by constructors, preserved by methods, representation confined): "+curF.Key+": "+it.rest)
+				}
 				if kind == "ensures" && hasTag(c.Tags, "A") {
 					sf.Assumes = append(sf.Assumes, "assumed postcondition (not checked against the body): "+curF.Key+": "+it.rest)
 				}
